@@ -535,6 +535,107 @@ func runC06Instance(dir string, g *rand.Rand, masks []api.EventMask, R, nreq int
 	}
 }
 
+// c06Unblocked: lifecycle events need no plugin-sync block. Callers relay events without one while many
+// plugins register, each with a lower index than everybody before: for every request the plugins invoked
+// were invoked at most once and in index order, and the plugins registered before the traffic exactly once.
+func c06Unblocked(dir string, res *ev.Result, tag string, nlate, callers int) {
+	what := map[string]any{"scenario": "events relayed without sync blocks while plugins register in descending index order", "registrations": nlate, "callers": callers}
+	mkdirAll(dir)
+	rt, err := rig.NewRuntime(dir)
+	if err != nil {
+		res.Note("runtime: %v", err)
+		return
+	}
+	if err := rt.Start(); err != nil {
+		res.Note("start: %v", err)
+		return
+	}
+	r := &c06Rig{rt: rt}
+	defer func() {
+		rt.Stop()
+		for _, p := range r.plugins {
+			p.p.StopStub()
+		}
+	}()
+	res.Eval()
+	for pos, idx := range []string{"90", "95"} {
+		p := r.newPlugin(pos, idx, 0, false)
+		r.plugins = append(r.plugins, p)
+		if err := p.p.Connect(rt.Sock); err != nil || !p.p.WaitSynced(20*time.Second) {
+			res.Note("%s: early plugin did not register: %v", tag, err)
+			res.Inconcl()
+			return
+		}
+	}
+	// a synchronized plugin is activated a moment later, still inside the exclusive section of its
+	// registration: a sync block is granted only after that
+	rt.A.BlockPluginSync().Unblock()
+	for i := 0; i < nlate; i++ {
+		r.plugins = append(r.plugins, r.newPlugin(2+i, fmt.Sprintf("%02d", 80-i), 0, true))
+	}
+	stop := make(chan struct{})
+	var wg sync.WaitGroup
+	var nreq atomic.Int64
+	evs := []api.Event{api.Event_START_CONTAINER, api.Event_POST_START_CONTAINER, api.Event_POST_CREATE_CONTAINER, api.Event_POST_UPDATE_CONTAINER, api.Event_RUN_POD_SANDBOX, api.Event_REMOVE_CONTAINER}
+	for w := 0; w < callers; w++ {
+		wg.Add(1)
+		go func(w int) {
+			defer wg.Done()
+			for i := 0; ; i++ {
+				select {
+				case <-stop:
+					return
+				default:
+				}
+				id := fmt.Sprintf("%s-u%d-%d", tag, w, i)
+				if _, err := c06Issue(rt.A, evs[(w+i)%len(evs)], id); err != nil {
+					res.Violate("C06/unexpected-error", fmt.Sprintf("event %s failed: %v", id, err), what)
+					return
+				}
+				nreq.Add(1)
+			}
+		}(w)
+	}
+	for _, p := range r.plugins[2:] {
+		if err := p.p.Connect(rt.Sock); err != nil || !p.p.WaitSynced(20*time.Second) {
+			res.Note("%s: late plugin %s did not register: %v", tag, p.idx, err)
+			break
+		}
+	}
+	close(stop)
+	wg.Wait()
+	r.mu.Lock()
+	log := append([]c06Inv(nil), r.log...)
+	r.mu.Unlock()
+	sort.Slice(log, func(i, j int) bool { return log[i].Tick < log[j].Tick })
+	byReq := map[string][]c06Inv{}
+	for _, inv := range log {
+		byReq[inv.Req] = append(byReq[inv.Req], inv)
+	}
+	sizes := map[int]bool{}
+	for id, invs := range byReq {
+		seen := map[int]int{}
+		for i, inv := range invs {
+			seen[inv.Plugin]++
+			if i > 0 && r.plugins[invs[i-1].Plugin].idx > r.plugins[inv.Plugin].idx {
+				res.Violate("C06/index-order", fmt.Sprintf("for request %s (no sync block, issued while plugins register) plugin %s was invoked before plugin %s", id, r.plugins[invs[i-1].Plugin].idx, r.plugins[inv.Plugin].idx), what)
+			}
+		}
+		for pos, n := range seen {
+			if n > 1 {
+				res.Violate("C06/extra-invocation/subscribed", fmt.Sprintf("plugin %s was invoked %d times for request %s", r.plugins[pos].idx, n, id), what)
+			}
+		}
+		if seen[0] != 1 || seen[1] != 1 {
+			res.Violate("C06/missed-invocation/subscribed", fmt.Sprintf("plugins 90 and 95 were registered before the traffic, yet request %s invoked them %d and %d times", id, seen[0], seen[1]), what)
+		}
+		sizes[len(seen)] = true
+	}
+	res.Count("unblocked_requests", nreq.Load())
+	res.Count("distinct_active_plugin_counts_seen_by_unblocked_requests", int64(len(sizes)))
+	res.Seen("unblocked-events-during-registrations")
+}
+
 // c06AfterIdle: plugins that registered against a large runtime state (their snapshot is sent in several
 // messages) or a small one stay registered while the runtime is idle for longer than the request
 // timeout; every event issued afterwards reaches each of them exactly once.
@@ -656,6 +757,8 @@ func runC06(c *ev.ChildEnv, res *ev.Result) {
 		}
 	}
 	installAdaptationHook(hook)
+	c.WAL("unblocked scenario")
+	c06Unblocked(c.Dir+"/unblocked", res, fmt.Sprintf("c06u%d", c.Batch), 60, 6)
 	c.WAL("idle scenario")
 	c06AfterIdle(c.Dir, res, fmt.Sprintf("c06b%d", c.Batch))
 	gm := rand.New(rand.NewPCG(uint64(c.Seed), 600)) // same mask list in every child
